@@ -416,6 +416,13 @@ Inductive xevent :=
 | XE (e : event)
 | XDialSlow (c : nat)
 | XCloseGo (h : nat)
+| XHoldReq (i a : nat) (known : bool)
+                      (* a request that is stopped at the schedule point `connection:locked`, i.e. inside
+                         its critical section, holding m.mu; let go by [XCloseGo (1000 + i)].  Only
+                         generated when the repository has that schedule point. *)
+| XCancelDeaf (i : nat)
+                      (* cancel ctx_i where the Dial started for thread i does not listen to its context:
+                         while that Dial is in flight nothing may happen; otherwise an ordinary cancel *)
 | XBreak (h : nat)    (* drive handle h to TRANSIENT_FAILURE (must change nothing in the manager) *)
 | XAgain (i : nat).   (* one more goroutine calls the done function of thread i while a call of it is in flight *)
 
@@ -438,6 +445,7 @@ Context {S : Type}.
 Variable inner : S -> event -> S * obs.
 Variable needs_lock : S -> event -> bool.
 Variable has_handle : S -> nat -> bool.
+Variable dial_pending : S -> nat -> bool.
 
 Record wst := {
   w_s : S;
@@ -529,6 +537,15 @@ Definition xrun (w : wst) (xe : xevent) : wst * xobs :=
       let '(s', o) := inner (w_s w) (EDial c true) in
       (wmk s' (if o_ign o then w_slow w else c :: w_slow w) (o_closed o) (w_park w) (w_used w) (w_def w) (w_again w),
        XObs o [] [])
+  | XHoldReq i a k =>
+      match w_park w with
+      | Some _ => xignored w
+      | None =>
+          if needs_lock (w_s w) (EReq i a k)
+          then (wmk (w_s w) (w_slow w) (w_closed w) (Some ((1000 + i)%nat, (1000 + i)%nat)) 0%nat [EReq i a k] (w_again w),
+                XObs (quiet_obs false w) [(1000 + i)%nat] [])
+          else run_now w (EReq i a k)
+      end
   | XCloseGo h =>
       match w_park w with
       | Some (h', closer) =>
@@ -540,7 +557,7 @@ Definition xrun (w : wst) (xe : xevent) : wst * xobs :=
             (* the closer's done() returns, then the blocked events run; callers
                waiting in once.Do of a done function that has now returned
                return too (sync.Once lets them go when the function is through) *)
-            let rel := closer :: x_reldone xo in
+            let rel := if Nat.ltb closer 1000 then closer :: x_reldone xo else x_reldone xo in
             let back := filter (fun a => mem a rel) (w_again w) in
             let keep := filter (fun a => negb (mem a rel)) (w_again w) in
             (wmk (w_s w2) (w_slow w2) (w_closed w2) (w_park w2) u2 (w_def w2) keep,
@@ -548,6 +565,15 @@ Definition xrun (w : wst) (xe : xevent) : wst * xobs :=
           else xignored w
       | None => xignored w
       end
+  | XCancelDeaf i =>
+      if dial_pending (w_s w) i then (w, XObs (quiet_obs false w) [] [])
+      else
+        match w_park w with
+        | Some _ =>
+            if existsb (fun d => match d with EReq j _ _ => Nat.eqb i j | _ => false end) (w_def w)
+            then xignored w else run_now w (ECancel i)
+        | None => run_now w (ECancel i)
+        end
   | XBreak h =>
       if has_handle (w_s w) h && negb (mem h (w_closed w))
       then (w, XObs (quiet_obs false w) [] [])
@@ -601,8 +627,14 @@ Definition m_handle (s : state) (h : nat) : bool :=
 Definition k_handle (ks : kstate) (h : nat) : bool :=
   match k_d ks h with Some (_, DOk) => true | _ => false end.
 
-Definition xmrun := xrun mrun m_needs m_handle.
-Definition xkstep := xrun kstep k_needs k_handle.
+Definition m_pending (s : state) (i : nat) : bool :=
+  match objs s i with Some o => match c_ds o with DInDial => true | _ => false end | None => false end.
+
+Definition k_pending (ks : kstate) (i : nat) : bool :=
+  match k_d ks i with Some (_, DPend) => true | _ => false end.
+
+Definition xmrun := xrun mrun m_needs m_handle m_pending.
+Definition xkstep := xrun kstep k_needs k_handle k_pending.
 
 (** a thread is handed a connection that is already shut down *)
 Definition handed_closed (o : obs) : bool :=
@@ -626,7 +658,10 @@ Fixpoint xcheck_from (n : nat) (w : @wst state) (wk : @wst kstate) (m_ok k_ok : 
       let bad1 := m_ok && negb (xobs_eqb r' rm) in
       let bad2 := k_ok && negb (xobs_eqb r' rk) in
       (if bad1 then [(n, 1%N)] else []) ++
-      (if bad2 then [(n, xtag rk r')] else []) ++
+      (* a deviation from the specification machine that contradicts no clause of
+         the property (something progressed where HEAD blocks, or the other way
+         round) is a broken correspondence, not a property failure *)
+      (if bad2 then (if N.eqb (xtag rk r') 7 then (if bad1 then [] else [(n, 1%N)]) else [(n, xtag rk r')]) else []) ++
       (* checked on the observation alone, whatever happened before: nobody is
          handed a connection that is already shut down *)
       (if handed_closed (x_o r') && negb bad2 then [(n, 4%N)] else []) ++
@@ -657,16 +692,81 @@ Fixpoint unlift (n : nat) (c : list (xevent * xobs)) : option (list (event * obs
   | _ => None
   end.
 
-Definition xcheck_case' (c : list (xevent * xobs)) : list (nat * N) :=
-  match unlift 0 c with
-  | Some (p, bad) =>
-      let r := check_case p in
-      r ++ match bad with
-           | Some n => if existsb (fun mt => negb (N.eqb (snd mt) 1)) r then [] else [(n, 7%N)]
-           | None => []
-           end
-  | None => xcheck_case c
+(** ** clauses of the property checked on the observations alone
+
+    Independent of the model and of the specification machine, and never
+    switched off by an earlier deviation: from the script and the observations
+    only, (tag 4) a thread that was handed handle h and for which no release
+    has been issued sees h closed / Shutdown; (tag 2) a Dial call to an address
+    is observed while an earlier Dial call to the same address has not been
+    ended (let return, or -- for a Dial that listens to its context --
+    cancelled). *)
+Record ost := {
+  os_held : list (nat * nat);   (* thread, handle: handed out, no release issued *)
+  os_fly : list (nat * nat);    (* dial (creator), address: invoked, not ended *)
+  os_t4 : bool;                 (* already reported *)
+  os_t2 : bool }.
+
+Definition ostep (st : ost) (xe : xevent) (o : obs) : ost * list N :=
+  let applied := negb (o_ign o) in
+  let held1 := match xe with
+               | XE (ERelease i) => if applied then filter (fun ih => negb (Nat.eqb (fst ih) i)) (os_held st) else os_held st
+               | _ => os_held st
+               end in
+  let drop d := filter (fun da : nat * nat => negb (Nat.eqb (fst da) d)) (os_fly st) in
+  let fly1 := match xe with
+              | XE (EDial d _) => if applied then drop d else os_fly st
+              | XDialSlow d => if applied then drop d else os_fly st
+              | XE (ECancel d) => if applied then drop d else os_fly st
+              | _ => os_fly st
+              end in
+  let clash :=
+    existsb (fun da : nat * nat =>
+      existsb (fun fa : nat * nat => Nat.eqb (snd fa) (snd da) && negb (Nat.eqb (fst fa) (fst da)))
+              (fly1 ++ o_dials o)) (o_dials o) in
+  let fly2 := fly1 ++ o_dials o in
+  let held2 := held1 ++ flat_map (fun ir : nat * robs => match snd ir with OConn h => [(fst ir, h)] | _ => [] end) (o_rets o) in
+  let seen := existsb (fun ih : nat * nat => existsb (Nat.eqb (snd ih)) (o_closed o)) held2 in
+  ({| os_held := held2; os_fly := fly2; os_t4 := os_t4 st || seen; os_t2 := os_t2 st || clash |},
+   (if clash && negb (os_t2 st) then [2%N] else []) ++ (if seen && negb (os_t4 st) then [4%N] else [])).
+
+Fixpoint ocheck_from (n : nat) (st : ost) (c : list (xevent * xobs)) : list (nat * N) :=
+  match c with
+  | [] => []
+  | (e, r) :: c' =>
+      let '(st', ts) := ostep st e (canon (x_o r)) in
+      map (fun t => (n, t)) ts ++ ocheck_from (S n) st' c'
   end.
+
+Definition ocheck (c : list (xevent * xobs)) : list (nat * N) :=
+  ocheck_from 0 {| os_held := []; os_fly := []; os_t4 := false; os_t2 := false |} c.
+
+Definition has_tag (l : list (nat * N)) (x : nat * N) : bool :=
+  existsb (fun y => Nat.eqb (fst x) (fst y) && N.eqb (snd x) (snd y)) l.
+
+Fixpoint add_new (l extra : list (nat * N)) : list (nat * N) :=
+  match extra with
+  | [] => l
+  | x :: extra' => if has_tag l x then add_new l extra' else add_new (l ++ [x]) extra'
+  end.
+
+(** tag 7 of the plain checker (join / failure points not as specified) is a
+    correspondence matter as well *)
+Definition demote7 (l : list (nat * N)) : list (nat * N) :=
+  add_new [] (map (fun x : nat * N => if N.eqb (snd x) 7 then (fst x, 1%N) else x) l).
+
+Definition xcheck_case' (c : list (xevent * xobs)) : list (nat * N) :=
+  let base :=
+    match unlift 0 c with
+    | Some (p, bad) =>
+        let r := check_case p in
+        demote7 (r ++ match bad with
+                      | Some n => if existsb (fun mt => negb (N.eqb (snd mt) 1)) r then [] else [(n, 1%N)]
+                      | None => []
+                      end)
+    | None => xcheck_case c
+    end in
+  add_new base (ocheck c).
 
 Fixpoint xcheck_all_from (i : nat) (cs : list (list (xevent * xobs))) : list (nat * nat * N) :=
   match cs with
